@@ -95,6 +95,13 @@ def family(rng, idx):
         v = used(perturb(t))
         return restore(v, t)
 
+    # states only pre-encoded routes can produce: a rootless path under an authority, next to its rooted twin
+    if path.startswith("/") and len(path) > 1:
+        members.append((("build-encoded-rootless", base), lambda: URL.build(scheme=sch, host=host, path=path[1:], query_string=q[1:], fragment=f[1:], encoded=True)))
+        members.append((("build-encoded-rooted", base), lambda: URL.build(scheme=sch, host=host, path=path, query_string=q[1:], fragment=f[1:], encoded=True)))
+        members.append((("splitresult-rootless", base), lambda: URL(SplitResult(sch, host, path[1:], q[1:], f[1:]), encoded=True)))
+        members.append((("splitresult-rooted", base), lambda: URL(SplitResult(sch, host, path, q[1:], f[1:]), encoded=True)))
+        members.append((("pickled-rootless", base), lambda: pickle.loads(pickle.dumps(URL(SplitResult(sch, host, path[1:], q[1:], f[1:]), encoded=True)))))
     # non-round-trip: a DIFFERENT used source (built from text) is modified into the target value
     def mk(q2=q, f2=f, path2=path, port2=port):
         return f"{pre}{user + '@' if user else ''}{host}{port2}{path2}{q2}{f2}"
